@@ -1058,10 +1058,12 @@ func (w *srvWorld) checkC09(final bool) {
 // call which entered its handler before the request arrived, and which is still
 // running, is a duplicate of an in-flight id: "rejected ... without disturbing
 // the first" - it must have been answered by now (nothing the property allows
-// holds a duplicate back: it needs no handler slot, and dispatch is only ever
-// parked behind an unfinished notification).
+// holds a duplicate back when a handler slot is free and no earlier
+// notification is unfinished).
 func (w *srvWorld) checkC07Prompt() {
-	if w.stopSeq >= 0 || w.baseCancelSeq >= 0 {
+	// (only with a handler slot to spare: an implementation may route rejections
+	// through the same queue as everything else)
+	if w.stopSeq >= 0 || w.baseCancelSeq >= 0 || w.running >= w.K {
 		return
 	}
 	w.noteArrivals()
